@@ -31,7 +31,8 @@ _SEPARATORS = ["\x0b", "\x0c", "\x1c", "\x1d", "\x1e", "\x85", "\u2028", "\u2029
 _odd = st.lists(st.tuples(st.integers(0, 60), st.sampled_from(_SEPARATORS)), min_size=0, max_size=3)
 _case = st.fixed_dictionaries(dict(
     prog=proggen.program, cuts=st.lists(st.integers(0, 60), min_size=4, max_size=7), nested=st.booleans(),
-    names=st.permutations(_FN), cli=st.integers(0, 7), odd=st.one_of(st.just([]), _odd)))
+    names=st.permutations(_FN), cli=st.integers(0, 7), odd=st.one_of(st.just([]), _odd),
+    empty_at=st.one_of(st.none(), st.none(), st.integers(0, 60))))
 
 
 def with_odd_comments(lines, odd):
@@ -208,6 +209,14 @@ def execute(case):
         if case.get("odd"):
             labels.append("separator_in_comment")
         files, main = split(lines, case["cuts"], case["nested"], case["names"])
+        if case.get("empty_at") is not None:
+            # two cuts on one boundary: an included file that holds nothing (zero bytes), in a file picked by the draw
+            host = sorted(files)[case["empty_at"] % len(files)]
+            at = case["empty_at"] % (len(files[host]) + 1)
+            if not (host == main and at == 0 and lines and " ORG " in lines[0]):
+                files[host] = files[host][:at] + [" INCLUDE nothing.asm\n"] + files[host][at:]
+                files["nothing.asm"] = []
+                labels.append("empty_include")
         if len(files) < 2:
             return skip("no include file produced by these cuts", labels=labels)
         if case["nested"] and len(files) >= 3:
